@@ -20,7 +20,7 @@
 (* and compared with the observed post-state / outputs (model conformance),   *)
 (* and every RaftContract predicate is evaluated on the observed states.      *)
 (* The spec is total.  Exactly one line per trace:                            *)
-(*      <<"V", id, verdict, pos, mpos, fails>>                                *)
+(*      <<"V", id, verdict, pos, mpos, fails, fired>>                         *)
 (*   verdict "ACCEPT" | "PROP:<clause>" (contract false on the observed       *)
 (*   execution, first such step = pos) | "MODEL:<what>" (code and model       *)
 (*   disagree, no contract clause false).  mpos = first step at which model   *)
@@ -29,13 +29,29 @@
 (*   reproduces exactly.  fails = <<clause, first step>> for EVERY clause     *)
 (*   that became false somewhere in the trace (the walk does not stop at the  *)
 (*   first one, so that a known failure does not hide a different one).       *)
+(*   fired = <<deviation, first step>> for every deviation of Dev that made a  *)
+(*   difference in this execution (attribution of reproduced failures).        *)
 EXTENDS RaftCore, RaftContract, Bags, Json, IOUtils
 
 Traces == JsonDeserialize(IOEnv.TRACE_FILE)
 NT == Len(Traces)
 
-VARIABLES ti, k, cur, bag, down, ldr, cmt, futs, fails, mv, mpos
-tvars == <<ti, k, cur, bag, down, ldr, cmt, futs, fails, mv, mpos>>
+VARIABLES ti, k, cur, bag, down, ldr, cmt, futs, fails, fired, mv, mpos
+tvars == <<ti, k, cur, bag, down, ldr, cmt, futs, fails, fired, mv, mpos>>
+
+\* the same handlers with one deviation of Dev switched off: a deviation "fires" at a step when
+\* switching it off changes what the model computes from the observed pre-state of that step
+NoVote == INSTANCE RaftCore WITH Dev <- Dev \ {"same_term_ae_clears_vote"}
+NoMatch == INSTANCE RaftCore WITH Dev <- Dev \ {"match_is_follower_last_index"}
+NoFut == INSTANCE RaftCore WITH Dev <- Dev \ {"future_keyed_by_index_only"}
+NoStale == INSTANCE RaftCore WITH Dev <- Dev \ {"stale_term_ae_response"}
+DevOrder == <<"same_term_ae_clears_vote", "match_is_follower_last_index", "future_keyed_by_index_only",
+              "stale_term_ae_response">>
+Firing(s, self, st, r) ==
+    (IF NoVote!OnStep(s, self, st) # r THEN {DevOrder[1]} ELSE {})
+    \cup (IF NoMatch!OnStep(s, self, st) # r THEN {DevOrder[2]} ELSE {})
+    \cup (IF NoFut!OnStep(s, self, st) # r THEN {DevOrder[3]} ELSE {})
+    \cup (IF NoStale!OnStep(s, self, st) # r THEN {DevOrder[4]} ELSE {})
 
 ToSet(q) == { q[j] : j \in 1..Len(q) }
 RECURSIVE SeqBag(_)
@@ -54,7 +70,7 @@ Init ==
     /\ bag = EmptyBag /\ down = {}
     /\ ldr = IF NT = 0 THEN {} ELSE LdrUpd({}, Load(Traces[1]))
     /\ cmt = {} /\ futs = {}
-    /\ fails = <<>> /\ mv = "" /\ mpos = 0
+    /\ fails = <<>> /\ fired = <<>> /\ mv = "" /\ mpos = 0
 
 Order == <<"ElectionSafety", "LogMatching", "LeaderCompleteness", "AppliedInOrder", "StateMachineSafety",
            "FutureTruth">>
@@ -69,17 +85,19 @@ Bad(new, l2, c2, f2) ==
     \cup (IF StateMachineSafetyP(new) THEN {} ELSE {"StateMachineSafety"})
     \cup (IF FutureTruthP(f2) THEN {} ELSE {"FutureTruth"})
 
-RECURSIVE Note(_, _, _)
-Note(fs, b, j) == IF j > Len(Order) THEN fs
-                  ELSE IF Order[j] \in b THEN Note(Append(fs, <<Order[j], k>>), b, j + 1)
-                  ELSE Note(fs, b, j + 1)
+RECURSIVE Note(_, _, _, _)
+Note(ord, fs, b, j) == IF j > Len(ord) THEN fs
+                       ELSE IF ord[j] \in b THEN Note(ord, Append(fs, <<ord[j], k>>), b, j + 1)
+                       ELSE Note(ord, fs, b, j + 1)
 
-Judge(new, l2, c2, f2) == fails' = Note(fails, Bad(new, l2, c2, f2) \ Seen, 1)
+Judge(new, l2, c2, f2) == fails' = Note(Order, fails, Bad(new, l2, c2, f2) \ Seen, 1)
+FiredSeen == { fired[j][1] : j \in 1..Len(fired) }
 Mis(mm) == mv' = (IF mv = "" THEN mm ELSE mv) /\ mpos' = (IF mv = "" /\ mm # "" THEN k ELSE mpos)
 
 \* a step that ran code on node n: model result r, observed post/out/res
-Ran(st, r, what, bag1, pre) ==
-    LET post == Canon(st.post)
+Ran(st, what, bag1, pre) ==
+    LET r == OnStep(cur[st.n], st.n, st)
+        post == Canon(st.post)
         new == [cur EXCEPT ![st.n] = post]
         l2 == LdrUpd(ldr, new)
         c2 == CmtUpd(cmt, cur, new)
@@ -93,16 +111,16 @@ Ran(st, r, what, bag1, pre) ==
     IN /\ cur' = new /\ ldr' = l2 /\ cmt' = c2 /\ futs' = f2
        /\ bag' = bag1 (+) SeqBag(st.out)
        /\ Judge(new, l2, c2, f2) /\ Mis(mm)
+       /\ fired' = Note(DevOrder, fired, Firing(cur[st.n], st.n, st, r) \ FiredSeen, 1)
        /\ UNCHANGED down
 
-Quiet(mm) == Mis(mm) /\ UNCHANGED <<cur, ldr, cmt, futs, fails>>
+Quiet(mm) == Mis(mm) /\ UNCHANGED <<cur, ldr, cmt, futs, fails, fired>>
 
 StepRec(st) ==
-    CASE st.a = "T" -> Ran(st, OnTimeout(cur[st.n], st.n), "timeout", bag, "")
-      [] st.a = "H" -> Ran(st, OnHeartbeat(cur[st.n], st.n), "heartbeat", bag, "")
-      [] st.a = "S" -> Ran(st, OnSubmit(cur[st.n], st.op), "submit", bag, "")
-      [] st.a = "D" -> Ran(st, OnMsg(cur[st.n], st.n, st.m), "deliver_" \o st.m.type,
-                           bag (-) SetToBag({st.m}),
+    CASE st.a = "T" -> Ran(st, "timeout", bag, "")
+      [] st.a = "H" -> Ran(st, "heartbeat", bag, "")
+      [] st.a = "S" -> Ran(st, "submit", bag, "")
+      [] st.a = "D" -> Ran(st, "deliver_" \o st.m.type, bag (-) SetToBag({st.m}),
                            IF BagIn(st.m, bag) THEN "" ELSE "MODEL:deliver_unsent")
       [] st.a = "X" -> down' = down \cup {st.n} /\ Quiet("") /\ UNCHANGED bag
       [] st.a = "R" -> down' = down \ {st.n} /\ Quiet("") /\ UNCHANGED bag
@@ -112,7 +130,7 @@ StepRec(st) ==
                mm == IF st.n \notin down THEN "MODEL:timer_lost_on_live_node"
                      ELSE IF post # exp THEN "MODEL:state_timer_lost" ELSE ""
            IN /\ cur' = [cur EXCEPT ![st.n] = post] /\ Mis(mm)
-              /\ UNCHANGED <<bag, down, ldr, cmt, futs, fails>>
+              /\ UNCHANGED <<bag, down, ldr, cmt, futs, fails, fired>>
       [] st.a = "DC" ->
            /\ bag' = bag (-) SetToBag({st.m}) /\ UNCHANGED down
            /\ Quiet(IF st.n \notin down THEN "MODEL:message_dropped_at_live_node"
@@ -127,7 +145,7 @@ StepRec(st) ==
                new == [cur EXCEPT ![st.n] = post]
                l2 == LdrUpd(ldr, new)
                c2 == CmtUpd(cmt, cur, new)
-           IN /\ cur' = new /\ ldr' = l2 /\ cmt' = c2 /\ UNCHANGED <<futs, bag, down>>
+           IN /\ cur' = new /\ ldr' = l2 /\ cmt' = c2 /\ UNCHANGED <<futs, bag, down, fired>>
               /\ Judge(new, l2, c2, futs) /\ Mis("MODEL:frame")
       [] OTHER -> Quiet("MODEL:unknown_step") /\ UNCHANGED <<bag, down>>
 
@@ -138,12 +156,12 @@ FailStr(fs) == IF fs = <<>> THEN ""
 Finish ==
     LET verdict == IF fails # <<>> THEN "PROP:" \o fails[1][1] ELSE IF mv # "" THEN mv ELSE "ACCEPT"
         pos == IF fails # <<>> THEN fails[1][2] ELSE IF mv # "" THEN mpos ELSE k - 1
-    IN /\ PrintT(<<"V", Traces[ti].id, verdict, pos, mpos, FailStr(fails)>>)
+    IN /\ PrintT(<<"V", Traces[ti].id, verdict, pos, mpos, FailStr(fails), FailStr(fired)>>)
        /\ ti' = ti + 1 /\ k' = 1
        /\ cur' = IF ti < NT THEN Load(Traces[ti + 1]) ELSE Dummy
        /\ ldr' = IF ti < NT THEN LdrUpd({}, Load(Traces[ti + 1])) ELSE {}
        /\ bag' = EmptyBag /\ down' = {} /\ cmt' = {} /\ futs' = {}
-       /\ fails' = <<>> /\ mv' = "" /\ mpos' = 0
+       /\ fails' = <<>> /\ fired' = <<>> /\ mv' = "" /\ mpos' = 0
 
 Next ==
     /\ ti <= NT
